@@ -8,7 +8,7 @@ with the parts of third-party code it calls:
 * `urlencoding::decode` / `decode_binary` (urlencoding-2.1.3/src/dec.rs),
 * `urlencoding::encode` (enc.rs),
 * `s3s::path::{check_bucket_name, check_key}` (crates/s3s/src/path.rs) — duplicated here on purpose
-  (component `path`, C12, has its own model), including `str::parse::<IpAddr>` on the bucket alphabet.
+  (component `path`, C12, has its own model).
 
 A Rust `&str` is its UTF-8 byte list; functions taking a `&str` are only meaningful on valid UTF-8.
 -/
@@ -75,19 +75,11 @@ def hasDotDot : Bytes → Bool
   | a :: b :: r => (a.toNat = 46 && b.toNat = 46) || hasDotDot (b :: r)
   | _ => false
 
-/-- one octet of `Ipv4Addr::from_str`: 1–3 decimal digits, no leading zero unless it is `0`, ≤ 255 -/
-def isIpv4Octet (g : Bytes) : Bool :=
-  match digitsVal g 0 with
-  | none => false
-  | some v =>
-    1 ≤ g.length && g.length ≤ 3 && v ≤ 255 &&
-    (g.length = 1 || g.head? ≠ some 48)
-
-/-- `name.parse::<IpAddr>().is_ok()` restricted to names over the bucket alphabet `[a-z0-9.-]`
-    (no `:` ⇒ never an IPv6 address) -/
-def parsesAsIp (name : Bytes) : Bool :=
+/-- "formatted as an IP address" (path.rs after commit 51f2ad6): exactly four dot-separated groups,
+    every group consisting of ASCII digits only — whether or not `Ipv4Addr::from_str` would accept it -/
+def looksLikeIp (name : Bytes) : Bool :=
   let gs := splitOn 46 name
-  gs.length = 4 && gs.all isIpv4Octet
+  gs.length = 4 && gs.all (fun g => g.all isDigit)
 
 /-- `"xn--"` -/
 def xnPrefix : Bytes := [120, 110, 45, 45]
@@ -99,7 +91,7 @@ def checkBucketName (name : Bytes) : Bool :=
   (name.head?.map isLowerOrDigit == some true) &&
   (name.getLast?.map isLowerOrDigit == some true) &&
   !hasDotDot name &&
-  !parsesAsIp name &&
+  !looksLikeIp name &&
   !(xnPrefix.isPrefixOf name)
 
 /-- `check_key` -/
